@@ -64,6 +64,15 @@ class C01(Property):
         return [world.fs.cwd + "/" + p if not p.startswith("/") else p for p in PATHS]
 
     # ------------------------------------------------------------------ generation
+    def gen_aftermath(self, world, step, rng):
+        """a write of a list failed: the list is still in the caller's hands - written somewhere else and loaded back"""
+        if step["op"] == "write" and step.get("h") in world.session(step["sess"]):
+            other = rng.pick([p for p in PATHS if p != step["path"]] or PATHS)
+            world.model["n"] += 1
+            yield {"op": "write", "sess": step["sess"], "h": step["h"], "path": other, "api": step["api"]}
+            yield {"op": "load", "sess": step["sess"], "path": other, "h": "m%d" % world.model["n"],
+                   "api": rng.pick(["Motl.load", "EmMotl", "EmMotl.read_in"])}
+
     def gen_step(self, world, rng):
         plan = world.model.setdefault("plan", [])
         while plan:
